@@ -27,7 +27,7 @@ def capacity_edges(fn, prov, field):
 
 
 def field_pushes(fn, prov, field, elem):
-    return [b for b in fn.calls_re(r"alloc::vec::Vec::<T, A>::(push|insert|extend\w*|append)$|Extend(<.*>)?>?::extend$", cleanup=False)
+    return [b for b in fn.calls_re(r"(alloc::vec::Vec::<T, A>::(push|insert|extend\w*|append)|vec_deque::VecDeque::<T, A>::(push_back|push_front|insert|extend\w*|append))$|Extend(<.*>)?>?::extend$", cleanup=False)
             if elem in fn.term(b)["arg_tys"][0] and has_origin(prov.of_operand(fn, fn.term(b)["args"][0]), kind="param", key=1, path_suffix=("." + field,))]
 
 
@@ -79,9 +79,9 @@ def rule_bounded_writes(ctx, facts, rule):
     for g in facts.fns.values():
         if g.crate != "fastrace":
             continue
-        for b in g.calls_re(r"alloc::vec::Vec::<T, A>::(push|insert|extend\w*|append)$", cleanup=False):
+        for b in g.calls_re(r"(alloc::vec::Vec::<T, A>::(push|insert|extend\w*|append)|vec_deque::VecDeque::<T, A>::(push_back|push_front|insert|extend\w*|append))$", cleanup=False):
             t = g.term(b)
-            if ("Vec<fastrace::local::local_span_line::SpanLine>" in t["arg_tys"][0] and not g.path.endswith("register_span_line")):
+            if (re.search(r"(Vec|VecDeque)<fastrace::local::local_span_line::SpanLine>", t["arg_tys"][0]) and not g.path.endswith("register_span_line")):
                 others.append((g.path, g.loc(b)))
             if "Vec<fastrace::local::raw_span::RawSpan>" in t["arg_tys"][0] and not g.path.startswith(QUEUE) \
                     and has_origin(prov.of_operand(g, t["args"][0]), path_suffix=(".span_queue",)):
@@ -164,14 +164,14 @@ def rule_scope_pairing(ctx, facts, rule):
     for g in facts.fns.values():
         if g.crate != "fastrace":
             continue
-        for b in g.calls_re(r"alloc::vec::Vec::<T, A>::\w+$", cleanup=False):
+        for b in g.calls_re(r"(alloc::vec::Vec|vec_deque::VecDeque)::<T, A>::\w+$", cleanup=False):
             t = g.term(b)
-            if "Vec<fastrace::local::local_span_line::SpanLine>" not in t["arg_tys"][0]:
+            if not re.search(r"(Vec|VecDeque)<fastrace::local::local_span_line::SpanLine>", t["arg_tys"][0]):
                 continue
             op = t["callee"].rsplit("::", 1)[1]
-            if op in ("push", "insert", "extend", "append", "extend_from_slice"):
+            if op in ("push", "push_back", "push_front", "insert", "extend", "append", "extend_from_slice"):
                 pushers.add(g.path)
-            if op in ("pop", "remove", "truncate", "clear", "drain", "swap_remove", "split_off", "retain", "retain_mut"):
+            if op in ("pop", "pop_back", "pop_front", "remove", "truncate", "clear", "drain", "swap_remove", "swap_remove_back", "swap_remove_front", "split_off", "retain", "retain_mut"):
                 poppers.add(g.path)
     ctx.check(pushers == {STACK + "register_span_line"} and poppers == {STACK + "unregister_and_collect"}, rule, STACK.rstrip(":"), "-",
               "scopes are pushed only by register_span_line and popped only by unregister_and_collect", "",
@@ -392,7 +392,7 @@ def rule_refused_scope_masks(ctx, facts, rule):
     fn = ctx.need_fn(facts, STACK + "register_span_line", rule)
     if fn is None:
         return
-    pushes = [b for b in fn.calls_re(r"alloc::vec::Vec::<T, A>::push$", cleanup=False)
+    pushes = [b for b in fn.calls_re(r"alloc::vec::Vec::<T, A>::push$|vec_deque::VecDeque::<T, A>::push_back$", cleanup=False)
               if "SpanLine>" in fn.term(b)["arg_tys"][0]]
     if not pushes:
         ctx.fail(rule, fn.path, fn.span, "register_span_line pushes a span line", "anchor lost: no push", extra="anchor")
@@ -428,7 +428,7 @@ def rule_unregister_always_pops(ctx, facts, rule):
     fn = ctx.need_fn(facts, STACK + "unregister_and_collect", rule)
     if fn is None:
         return
-    pops = [b for b in fn.calls_re(r"alloc::vec::Vec::<T, A>::pop$", cleanup=False) if "SpanLine>" in fn.term(b)["arg_tys"][0]]
+    pops = [b for b in fn.calls_re(r"alloc::vec::Vec::<T, A>::pop$|vec_deque::VecDeque::<T, A>::pop_back$", cleanup=False) if "SpanLine>" in fn.term(b)["arg_tys"][0]]
     ok, wit = fn.must_pass([0], pops) if pops else (False, None)
     ctx.check(ok, rule, fn.path, fn.span, "releasing a scope pops the scope stack on every returning path", "pop sites %s" % pops,
               "a path returns at bb%s without popping span_lines: the released scope stays on the stack as the thread's local parent" % wit,
